@@ -19,8 +19,11 @@ Definition frame_eqb (a b : N * bytes) : bool := (fst a =? fst b)%N && bytes_eqb
 Inductive case :=
 (* transactions in the order the loop processed them: (signed size, batchable);
    which of them went into the batch; length of the bundle message built from
-   the batch (0 when the batch is empty) *)
-| CBatch (entries : list (Z * bool)) (obs_admitted : list bool) (obs_len : Z)
+   the batch (0 when the batch is empty).  [self_propose]: the node was in
+   proposing state, the batch became its own snapshot (sendTransactionsToNode
+   to itself) instead of a bundle for a peer.  The accounting rule of the model
+   does not look at the flag: a loop whose budget depends on it is a mismatch. *)
+| CBatch (self_propose : bool) (entries : list (Z * bool)) (obs_admitted : list bool) (obs_len : Z)
 (* real bundle builder on transactions of these marshalled sizes *)
 | CBundleSize (sizes : list Z) (obs_len : Z)
 (* real buildRelayMessage around an n-byte message: length, or panic *)
@@ -34,7 +37,7 @@ Inductive case :=
 
 Definition check (c : case) : bool :=
   match c with
-  | CBatch entries adm l =>
+  | CBatch _ entries adm l =>
       let flags := batch_loop 0 entries in
       bools_eqb flags adm &&
       (let batch := select flags (map fst entries) in
